@@ -57,6 +57,13 @@ Variable plural_index : Z -> nat.
 Variable bd : bundle.
 Variable o : jopts.
 Variable lv : list bstr.
+(* C04's statements are relative to a call context since its call stage (Proofs/MiniJSSim.v callctx): raw text and prints
+   call nothing, so the context without calls over the template's data [denv] does *)
+Variable denv : bstr -> option value.
+Hypothesis Hdenv : envok denv.
+Local Notation sout ij mode pt := (MiniJS.sout ij mode pt denv (fun _ _ => None)).
+Local Notation js_exec := (MiniJS.js_exec (fun _ _ _ => OutOfModel)).
+Local Notation sim c := (MiniJSSim.sim c (cc_nocalls denv)).
 
 (* the bytes the statements denote, in order, in one environment (raw text and prints bind nothing) *)
 Fixpoint stmts_text (mode : N) (env : bstr -> option value) (ss : list cstmt) : option bstr :=
@@ -102,7 +109,7 @@ Proof.
 Qed.
 
 (* C04's step for one statement with everything the generator's state keeps exposed (scope and counter) *)
-Lemma stmt_step_strong st je jst s fuel text env' old :
+Lemma stmt_step_strong st je jst s fuel text env' old : plain s ->
   c_oblig cf = [] -> (sdepth s < fuel)%nat -> sim cf st je jst old ->
   swf lv s = true -> lvok lv (j_scope jst) ->
   sout (c_ij cf) (mode st) go_print_text (sc_lookup (ctx st)) s = Some (text, env') ->
@@ -115,16 +122,20 @@ Lemma stmt_step_strong st je jst s fuel text env' old :
     /\ j_indent jst' = j_indent jst /\ j_buf jst' = j_buf jst /\ j_scope jst' = fst (snd g) /\ j_n jst' = snd (snd g)
     /\ sim cf st' je' jst' (old ++ text) /\ lvok lv (j_scope jst').
 Proof.
-  intros Hob Hf (Hg & Hn & ER & G & Hbuf & Hmode) Hwf Hlv E.
+  intros Hpl Hob Hf (Hg & Hd & ER & DR & G & Hbuf & Hmode) Hwf Hlv E. cbn [cc_nocalls cc_denv] in Hd, DR.
+  pose proof (dinv_nonempty _ _ Hd) as Hn.
   destruct (sgen (mode st) (j_buf jst) (j_scope jst) (j_n jst) s) as [j [sc' n']] eqn:Eg. cbn [fst snd].
   assert (Hc : envok (sc_lookup (ctx st))).
   { intros k x Hk. pose proof (er_core _ _ _ _ ER k) as H. unfold env_val in H. rewrite Hk in H. exact H. }
   assert (Hij : forall x, c_ij cf = Some x -> core_value x = true) by (intros x Hx; exact (er_core_ij _ _ _ _ ER x Hx)).
-  destruct (proj1 (interp_all cf Hob Hij) s fuel st text (sc_lookup (ctx st)) env' Hf Hg Hn (fun k => eq_refl) Hc E)
-    as (st' & ws & rv & E1 & W1 & C1 & M1 & N1 & T1 & A1).
-  destruct (proj1 (js_exec_all (c_ij cf) (mode st)) s (j_buf jst) (j_scope jst) (j_n jst) (sc_lookup (ctx st)) je old text env' j sc' n' G E (conj ER Hbuf) Eg)
+  destruct (proj1 (interp_all cf Hob Hij denv Hdenv (fun _ _ => None) 0%nat (nocallee_go cf)) s fuel st text (sc_lookup (ctx st)) env' Hf Hg Hn
+              (conj (fun k => eq_refl) Hd) Hc E)
+    as (st' & ws & rv & E1 & W1 & C1 & M1 & N1 & T1 & A1 & D1).
+  destruct (proj1 (js_exec_all (c_ij cf) (mode st) denv (fun _ _ => None) (fun _ _ _ => OutOfModel) (nocallee_js _ _)) s (j_buf jst) (j_scope jst) (j_n jst)
+              (sc_lookup (ctx st)) je old text env' j sc' n' G E (conj ER Hbuf) DR Eg)
     as (je' & E2 & (ER' & Hbuf') & (D2 & F2)).
-  destruct (proj1 (sgen_print_all o) s lv fuel jst j sc' n' (j_indent jst) (j_buf jst) (j_auto jst) (j_scope jst) (j_n jst) Hf (gi_nonempty _ _ _ G)
+  assert (HGQ : GQ_s o s) by (destruct Hpl as [[t0 ->]|[e0 [ds0 ->]]]; [apply sgen_print_raw|apply sgen_print_print]).
+  destruct (HGQ lv fuel jst j sc' n' (j_indent jst) (j_buf jst) (j_auto jst) (j_scope jst) (j_n jst) Hf (gi_nonempty _ _ _ G)
               Hlv Hwf (shape_refl jst)) as (jst' & E3 & O3 & I3 & B3 & A3 & S3 & N3). { rewrite Hmode. exact Eg. }
   assert (ER2 : env_rel (j_scope jst') (c_ij cf) (sc_lookup (ctx st')) je').
   { rewrite S3. eapply env_rel_ext; [|exact ER']. intro k. symmetry. apply A1. }
@@ -133,7 +144,8 @@ Proof.
   exists st', ws, rv, je', jst'.
   repeat (split; [assumption|]).
   split; [|rewrite S3; exact (lvok_after lv _ _ _ _ _ _ _ _ (swf_binder lv s Hwf) Eg Hlv)].
-  unfold sim. split; [exact (wrote_wok _ _ _ W1 Hg)|]. split; [exact N1|]. split; [exact ER2|]. split; [exact G2|]. split; [rewrite B3; exact Hbuf'|congruence].
+  unfold MiniJSSim.sim. cbn [cc_nocalls cc_denv]. split; [exact (wrote_wok _ _ _ W1 Hg)|]. split; [exact D1|]. split; [exact ER2|]. split; [rewrite D2; exact DR|].
+  split; [exact G2|]. split; [rewrite B3; exact Hbuf'|congruence].
 Qed.
 
 (* the generator on a text segment of a translation: the chunks of the append-literal statement *)
@@ -185,20 +197,20 @@ Proof.
     { destruct His as [t|p n e ds|p n q t].
       - (* a text segment *)
         rewrite sout_raw in E1. inversion E1; subst t1 env1. clear E1.
-        destruct Hsim as (Hg & Hn & ER & G & Hbuf & Hmode).
+        destruct Hsim as (Hg & Hn & ER & DR & G & Hbuf & Hmode). cbn [cc_nocalls cc_denv] in Hn, DR.
         destruct (write_wok t st Hg) as (st1 & Ew & W1 & C1 & M1).
-        destruct (js_exec_stmt (c_ij cf) (mode st) (j_buf jst) (SRaw t) (j_scope jst) (j_n jst) (sc_lookup (ctx st)) je old t
-                    (sc_lookup (ctx st)) (JSAppendLit (j_buf jst) t) (j_scope jst) (j_n jst) G ltac:(apply sout_raw) ER Hbuf ltac:(reflexivity))
-          as (je1 & Ej & (ER1 & Hbuf1) & _).
+        destruct (js_exec_stmt (c_ij cf) (mode st) denv (fun _ _ => None) (fun _ _ _ => OutOfModel) (j_buf jst) (SRaw t) (j_scope jst) (j_n jst) (sc_lookup (ctx st)) je old t
+                    (sc_lookup (ctx st)) (JSAppendLit (j_buf jst) t) (j_scope jst) (j_n jst) (nocallee_js _ _) G ltac:(apply sout_raw) ER Hbuf DR ltac:(reflexivity))
+          as (je1 & Ej & (ER1 & Hbuf1) & (Dj1 & _)).
         destruct (gres_raw_text t jst _ _ _ _ _ (shape_refl jst)) as (jst1 & Eg & Og & I3 & B3 & A3 & S3 & N3).
         exists st1, [t], je1, jst1. unfold mbind. rewrite Ew. cbn [concat_b]. rewrite app_nil_r.
         split; [reflexivity|]. split; [exact W1|]. split; [reflexivity|]. split; [exact M1|]. split; [intro k; rewrite C1; reflexivity|].
         split; [exact Ej|]. split; [exact Eg|]. split; [exact Og|]. split; [exact I3|]. split; [exact B3|]. split; [exact S3|]. split; [exact N3|].
         split; [|rewrite S3; exact Hlv].
-        unfold sim. split; [exact (wrote_wok _ _ _ W1 Hg)|]. split; [rewrite C1; exact Hn|].
-        split; [rewrite S3, C1; exact ER1|]. split; [rewrite S3, N3, B3; exact G|]. split; [rewrite B3; exact Hbuf1|congruence].
+        unfold MiniJSSim.sim. cbn [cc_nocalls cc_denv]. split; [exact (wrote_wok _ _ _ W1 Hg)|]. split; [rewrite C1; exact Hn|].
+        split; [rewrite S3, C1; exact ER1|]. split; [rewrite Dj1; exact DR|]. split; [rewrite S3, N3, B3; exact G|]. split; [rewrite B3; exact Hbuf1|congruence].
       - (* a placeholder that is a core print *)
-        destruct (stmt_step_strong st je jst (SPrint e ds) fuel t1 env1 old Hob Hd1 Hsim Hw1 Hlv E1)
+        destruct (stmt_step_strong st je jst (SPrint e ds) fuel t1 env1 old (or_intror (ex_intro _ e (ex_intro _ ds eq_refl))) Hob Hd1 Hsim Hw1 Hlv E1)
           as (st1 & ws1 & rv & je1 & jst1 & Ewk & W1 & C1 & M1 & A1 & Ej & Eg & Og & I3 & B3 & S3 & N3 & Hsim1 & Hlv1).
         assert (Henv : env1 = sc_lookup (ctx st)).
         { rewrite sout_print in E1. destruct (ceval _ _ e) as [v|]; [|discriminate]. destruct (scalar_string v); [|discriminate].
@@ -210,13 +222,13 @@ Proof.
         split; [exact Ej|]. split; [exact Eg|]. split; [exact Og|]. repeat (split; [assumption|]). assumption. 
       - (* a placeholder that is an html tag *)
         rewrite sout_raw in E1. inversion E1; subst t1 env1. clear E1.
-        destruct Hsim as (Hg & Hn & ER & G & Hbuf & Hmode).
+        destruct Hsim as (Hg & Hn & ER & DR & G & Hbuf & Hmode). cbn [cc_nocalls cc_denv] in Hn, DR.
         destruct fuel as [|f]; [cbn in Hd1; lia|].
         assert (Hg0 : wok (set_cur st q)) by (destruct st; exact Hg).
         destruct (write_wok t (set_cur st q) Hg0) as (st1 & Ew & W1 & C1 & M1).
-        destruct (js_exec_stmt (c_ij cf) (mode st) (j_buf jst) (SRaw t) (j_scope jst) (j_n jst) (sc_lookup (ctx st)) je old t
-                    (sc_lookup (ctx st)) (JSAppendLit (j_buf jst) t) (j_scope jst) (j_n jst) G ltac:(apply sout_raw) ER Hbuf ltac:(reflexivity))
-          as (je1 & Ej & (ER1 & Hbuf1) & _).
+        destruct (js_exec_stmt (c_ij cf) (mode st) denv (fun _ _ => None) (fun _ _ _ => OutOfModel) (j_buf jst) (SRaw t) (j_scope jst) (j_n jst) (sc_lookup (ctx st)) je old t
+                    (sc_lookup (ctx st)) (JSAppendLit (j_buf jst) t) (j_scope jst) (j_n jst) (nocallee_js _ _) G ltac:(apply sout_raw) ER Hbuf DR ltac:(reflexivity))
+          as (je1 & Ej & (ER1 & Hbuf1) & (Dj1 & _)).
         destruct (gres_walk o f (NMsgHtmlTag q t) jst (sprint (j_indent jst) (JSAppendLit (j_buf jst) t))
                     _ _ _ _ _ _ _ _ _ _ eq_refl (shape_refl jst)
                     (fun st1 H1 => gres_raw_text t st1 _ _ _ _ _ H1)) as (jst1 & Eg & Og & I3 & B3 & A3 & S3 & N3).
@@ -229,8 +241,8 @@ Proof.
         split; [intro k; rewrite C0; reflexivity|].
         split; [exact Ej|]. split; [exact Eg|]. split; [exact Og|]. split; [exact I3|]. split; [exact B3|]. split; [exact S3|]. split; [exact N3|].
         split; [|rewrite S3; exact Hlv].
-        unfold sim. split; [exact (wrote_wok _ _ _ W1 Hg0)|]. split; [rewrite C0; exact Hn|].
-        split; [rewrite S3, C0; exact ER1|]. split; [rewrite S3, N3, B3; exact G|]. split; [rewrite B3; exact Hbuf1|congruence]. }
+        unfold MiniJSSim.sim. cbn [cc_nocalls cc_denv]. split; [exact (wrote_wok _ _ _ W1 Hg0)|]. split; [rewrite C0; exact Hn|].
+        split; [rewrite S3, C0; exact ER1|]. split; [rewrite Dj1; exact DR|]. split; [rewrite S3, N3, B3; exact G|]. split; [rewrite B3; exact Hbuf1|congruence]. }
     destruct Hstep as (st1 & ws1 & je1 & jst1 & Ego & W1 & C1 & M1 & A1 & Ej & Eg & Og & I3 & B3 & S3 & N3 & Hsim1 & Hlv1).
     (* the rest of the items from the new states *)
     assert (E2' : stmts_text (mode st1) (sc_lookup (ctx st1)) ss = Some t2).
